@@ -5,9 +5,13 @@ Part 1 (this file): the per-remote uplink queue for a VALUE lane — model `Mode
 `Model/UplinkSys.lean`. For every registry and every interleaving of pushes (for any lanes), link messages and write
 completions in which lane `l` is a value lane that stays linked.
 Part 2: the agent side (`ValueStore` dirty flag, `ValueLane::write_to_buffer`) — `Model/ValueLane.lean`.
+Part 3: the composition — the lane of part 2 feeding, through its output pipe (arbitrary delay), the uplink queues of
+part 1 of any number of remotes, under every interleaving of sets, sync requests, agent writes, pipe transfers,
+links and write completions (`Proofs/ValueCompose.lean`; built from the two tied models only).
 -/
 import SwimVerif.Proofs.ValueSampling
 import SwimVerif.Proofs.ValueLane
+import SwimVerif.Proofs.ValueComposeFinal
 
 set_option linter.unusedVariables false
 namespace SwimVerif.WT
@@ -57,3 +61,111 @@ theorem C01_lane_clean_means_published (ops : List Op) (hd : (run {} ops).dirty 
   clean_means_published ops hd hs
 
 end SwimVerif.VL
+
+namespace SwimVerif.VC
+open WT (Registry Body)
+
+/-! ### Part 3: lane + pipe + per-remote uplink queues, every interleaving (`List COp`)
+
+`(cRun reg l {} ops).delivered l r` = the event bodies remote `r` has been sent for the lane; `.held` = the values the
+lane held over time (initial value `0`, then every value set); `staysLinked r ops` = no `unlink r` in `ops` (the remote
+may link at any point, explicitly or by syncing, or never). -/
+
+/-- **sampled** (ordered, gap-tolerant, never invented), every remote, syncs included: what the remote is delivered is a
+monotone index sampling of the values the lane held — each delivered value sits at a position of `held`, and the
+positions never go backwards (a position is repeated only by a sync answer re-sending the value an event already
+carried). -/
+theorem C01_composed_sampled (reg : Registry) (l : Nat) (ops : List COp) (r : Nat) (hno : staysLinked r ops) :
+    MonoSample ((cRun reg l {} ops).delivered l r) ((cRun reg l {} ops).held.map body) :=
+  cinv_sampled sampRel_mono (cinv_run sampRel_mono reg ops {} (cinv_init sampRel_mono) hno (fun _ _ _ => trivial))
+
+/-- **never stale**, the same with the indices spelled out: there is a position `f k` in `held` for the `k`-th delivered
+value, `held[f k]` is that value, and `f` is monotone — a later delivery never carries a value that the lane held
+*before* the value of an earlier delivery. Positional, so setting the same value twice does not blur it. -/
+theorem C01_composed_never_stale (reg : Registry) (l : Nat) (ops : List COp) (r : Nat) (hno : staysLinked r ops) :
+    ∃ f : Nat → Nat,
+      (∀ j k, j ≤ k → k < ((cRun reg l {} ops).delivered l r).length → f j ≤ f k) ∧
+      ∀ k (hk : k < ((cRun reg l {} ops).delivered l r).length),
+        ((cRun reg l {} ops).held.map body)[f k]? = some ((cRun reg l {} ops).delivered l r)[k] :=
+  (C01_composed_sampled reg l ops r hno).unpack
+
+/-- The strict form — a plain subsequence, no position used twice — for *every* remote that stays linked … -/
+def C01_composed_sampled_strict : Prop :=
+  ∀ (reg : Registry) (l : Nat) (ops : List COp) (r : Nat), staysLinked r ops →
+    ((cRun reg l {} ops).delivered l r).Sublist ((cRun reg l {} ops).held.map body)
+
+/-- … is false, by design of `sync`: a remote that has received the event for value 5 and then syncs is sent 5 again
+(sync answer = the current value), so it sees `[5, 5]` while the lane held `[0, 5]`. -/
+theorem C01_composed_sampled_strict_fails : ¬ C01_composed_sampled_strict := by
+  intro h
+  have := h [7] 0 [.link 1, .done 1, .set 5, .write, .xfer, .done 1, .sync 1, .write, .xfer, .xfer, .done 1, .done 1] 1
+    (by decide)
+  revert this
+  decide
+
+/-- It holds for every remote that never syncs: the events it is delivered are a subsequence of the values *set*
+(not even the initial value can appear). -/
+theorem C01_composed_sampled_strict_partial (reg : Registry) (l : Nat) (ops : List COp) (r : Nat)
+    (hno : staysLinked r ops) (hns : neverSyncs r ops) :
+    ((cRun reg l {} ops).delivered l r).Sublist ((cRun reg l {} ops).lane.history.map body) :=
+  cinv_sampled sampRel_strict
+    (cinv_run sampRel_strict reg ops {} (cinv_init sampRel_strict) hno (sync_ok_of_never hns))
+
+/-- **quiescent ⇒ fresh**: when nothing is owed to the remote any more (lane clean with no sync pending, pipe empty,
+no write in flight) the last value it was delivered is the lane's current value — provided it has a reason to have
+heard of it: a set happened after it linked, or it asked for a sync. -/
+theorem C01_composed_quiescent_fresh (reg : Registry) (l : Nat) (ops : List COp) (r : Nat) (hno : staysLinked r ops)
+    (hq : (cRun reg l {} ops).quiescent r) (ho : (cRun reg l {} ops).owed r) :
+    ((cRun reg l {} ops).delivered l r).getLast? = some (body (cRun reg l {} ops).lane.content) :=
+  cinv_fresh (cinv_run sampRel_mono reg ops {} (cinv_init sampRel_mono) hno (fun _ _ _ => trivial)) hq ho
+
+/-- **the newest value is never lost on the way**, at every moment (not only at quiescence): for a remote that was
+linked when the last set happened, the queue "delivered, in flight, in its overwrite buffer, in the pipe, unsent in the
+lane" ends with the lane's current value. -/
+theorem C01_composed_newest_on_the_way (reg : Registry) (l : Nat) (ops : List COp) (r : Nat) (hno : staysLinked r ops)
+    (hl : ((cRun reg l {} ops).rem r).linked = true)
+    (hs : ((cRun reg l {} ops).rem r).since < (cRun reg l {} ops).lane.history.length) :
+    (WT.valueView l ((cRun reg l {} ops).rem r).sys ++ pipeBodies r (cRun reg l {} ops).pipe ++
+      dirtyBody (cRun reg l {} ops).lane).getLast? = some (body (cRun reg l {} ops).lane.content) :=
+  cinv_newest (cinv_run sampRel_mono reg ops {} (cinv_init sampRel_mono) hno (fun _ _ _ => trivial)) hl hs
+
+/-! non-vacuity. Remote 1 is slow (its first write completes only at the end), remote 2 is fast: values 1, 2, 3 are set
+and written one by one; remote 2 sees all three, remote 1 sees 1 and 3 (2 was overwritten in its buffer); both end
+fresh. -/
+def exSlow : List COp :=
+  [.link 1, .link 2, .done 1, .done 2, .set 1, .write, .xfer, .done 2, .set 2, .write, .xfer, .done 2,
+   .set 3, .write, .xfer, .done 1, .done 1, .done 2]
+
+example : staysLinked 1 exSlow ∧ neverSyncs 1 exSlow ∧ staysLinked 2 exSlow ∧ neverSyncs 2 exSlow := by decide
+example : (cRun [7] 0 {} exSlow).delivered 0 1 = [body 1, body 3] ∧
+    (cRun [7] 0 {} exSlow).delivered 0 2 = [body 1, body 2, body 3] ∧
+    (cRun [7] 0 {} exSlow).held = [0, 1, 2, 3] := by decide
+example : (cRun [7] 0 {} exSlow).quiescent 1 ∧ (cRun [7] 0 {} exSlow).owed 1 ∧
+    (cRun [7] 0 {} exSlow).quiescent 2 ∧ (cRun [7] 0 {} exSlow).owed 2 ∧
+    (cRun [7] 0 {} exSlow).lane.content = 3 := by decide
+/-- in the middle of that run (value 3 set but not yet written, 1 in flight to remote 1, 2 in its buffer) the hypotheses
+of `newest_on_the_way` hold while the remote has not been delivered any value yet -/
+example : ((cRun [7] 0 {} (exSlow.take 13)).rem 1).linked = true ∧
+    ((cRun [7] 0 {} (exSlow.take 13)).rem 1).since < (cRun [7] 0 {} (exSlow.take 13)).lane.history.length ∧
+    (cRun [7] 0 {} (exSlow.take 13)).delivered 0 1 = [] ∧
+    WT.valueView 0 ((cRun [7] 0 {} (exSlow.take 13)).rem 1).sys = [body 1, body 2] ∧
+    dirtyBody (cRun [7] 0 {} (exSlow.take 13)).lane = [body 3] := by decide
+
+/-- a remote that only syncs (never links explicitly, before any set): it is linked implicitly, receives the initial
+value, then follows the sets; the same value set twice is delivered twice, at two different positions -/
+def exSync : List COp :=
+  [.sync 4, .write, .xfer, .xfer, .done 4, .done 4, .set 7, .write, .xfer, .done 4, .set 7, .write, .xfer, .done 4]
+
+example : staysLinked 4 exSync ∧ (cRun [7] 0 {} exSync).delivered 0 4 = [body 0, body 7, body 7] ∧
+    (cRun [7] 0 {} exSync).held = [0, 7, 7] ∧ (cRun [7] 0 {} exSync).quiescent 4 ∧ (cRun [7] 0 {} exSync).owed 4 := by
+  decide
+
+/-- frames delayed in the pipe: two sets and writes before the runtime reads anything; a remote that links meanwhile
+is still sent those values (they were written before it linked but transferred after), in order; with a slow remote
+the same frames coalesce in its buffer -/
+example : (cRun [7] 0 {} [.set 1, .write, .set 2, .write, .link 3, .done 3, .set 3, .write, .xfer, .done 3, .xfer,
+    .done 3, .xfer, .done 3]).delivered 0 3 = [body 1, body 2, body 3] := by decide
+example : (cRun [7] 0 {} [.set 1, .write, .set 2, .write, .link 3, .set 3, .write, .xfer, .xfer, .xfer,
+    .done 3, .done 3, .done 3]).delivered 0 3 = [body 3] := by decide
+
+end SwimVerif.VC
